@@ -556,8 +556,9 @@ def family_deep(seed=0, nmax=5, extra=24):
 # ------------------------------------------------------------------ raw (hand-templated) programs
 
 class RawSpec:
-    def __init__(self, files, label, expect='accept', reject_props=None, family='raw', naming='plain', extra_pkgs=None, compile_props=None, ext_modules=None):
+    def __init__(self, files, label, expect='accept', reject_props=None, family='raw', naming='plain', extra_pkgs=None, compile_props=None, ext_modules=None, shared_pkgs=None):
         self.ext_modules = ext_modules or {}   # module path -> {relative file: source}: dependencies outside the corpus module
+        self.shared_pkgs = shared_pkgs or {}   # corpus-relative dir -> {file: source}: packages shared by several programs
         self.compile_props = compile_props or ['C01']
         self.files = files              # filename -> source ({PKG} is replaced by the package name)
         self.label = label
@@ -749,6 +750,20 @@ def family_packages():
                          '\tc, err := InjectCtx()\n\tvrt.A("C02", err == nil && c != nil && c.ID == 4343, "injector returning a type of an external module")\n}\n'),
     }
     specs.append(RawSpec(files, 'providers and types from external modules (one import path with the text vendor/ inside an element)', family='packages', ext_modules=ext))
+    # one provider set with value expressions (composite literals referring to other packages) consumed by two packages
+    conf = ('package conf\n\nimport (\n\t"time"\n\n\t"github.com/google/wire"\n)\n\ntype Level int\n\nconst Debug Level = 3\n\ntype Options struct {\n\tTimeout time.Duration\n\tLevel   Level\n\tTags    []string\n}\n\n'
+            'var Set = wire.NewSet(wire.Value(Options{Timeout: 5 * time.Second, Level: Debug, Tags: []string{"a", "b"}}), wire.Value(&Extra{Opt: Options{Level: Debug}}))\n\ntype Extra struct{ Opt Options }\n')
+    for which in ('a', 'b'):
+        files = {
+            'providers.go': ('package {PKG}\n\nimport (\n\t"time"\n\n\t"example.com/corpus/vrt"\n\t"example.com/corpus/zzconf/conf"\n)\n\ntype App struct{ ID int }\n\n'
+                             'func NewApp(o conf.Options, e *conf.Extra) App {\n\tid, _ := vrt.Call(0, false, int(o.Timeout/time.Second), int(o.Level), len(o.Tags), int(e.Opt.Level))\n\treturn App{ID: id}\n}\n'),
+            'wire.go': ('//go:build wireinject\n// +build wireinject\n\npackage {PKG}\n\nimport (\n\t"github.com/google/wire"\n\t"example.com/corpus/zzconf/conf"\n)\n\nfunc Inject() App {\n\tpanic(wire.Build(conf.Set, NewApp))\n}\n'),
+            'zz_driver.go': ('//go:build !wireinject\n// +build !wireinject\n\npackage {PKG}\n\nimport "example.com/corpus/vrt"\n\nfunc VDrive() {\n'
+                             '\tspec := &vrt.Spec{Nodes: []vrt.Node{{Name: "NewApp", Kind: vrt.KFunc, Params: []vrt.Ref{{Node: -1, Const: 5}, {Node: -1, Const: 3}, {Node: -1, Const: 2}, {Node: -1, Const: 3}}}}, Result: []vrt.Ref{{Node: 0}}, ArgIDs: make([][]int, 1)}\n'
+                             '\tvrt.Reset()\n\tres := Inject()\n\tvrt.Check(spec, vrt.Outcome{Result: []int{res.ID}, CleanupNil: true})\n}\n'),
+        }
+        specs.append(RawSpec(files, 'value expressions of a shared provider set (composite literals referring to time and conf) consumed by package %s of two' % which, family='packages',
+                             shared_pkgs={'zzconf/conf': {'conf.go': conf}}))
     def cfg(node):
         return ('package config\n\nimport (\n\t"example.com/corpus/vrt"\n\t"example.com/corpus/{PKG}/settings"\n\t"github.com/google/wire"\n)\n\n'
                 'func New() settings.Settings {\n\tid, _ := vrt.Call(%d, false)\n\treturn settings.Settings{ID: id}\n}\n\nvar Set = wire.NewSet(New)\n' % node)
